@@ -18,7 +18,7 @@ def main():
                                           T._open, T._open_nc_file, T._create, T._create_nc_file, TrajectoryCache.popitem)
     L = 4 if tier == 'quick' else 5
     rep.bounds = dict(kernel='index 0..60, trajectories at open 1..20, added in session 0..20, merged stores of 2..4 files with 1..12 trajectories each: all as solver integers',
-                      histories=f'every sequence of {L} operations from {c07.OPS} after create, read index chosen among 0..len (one beyond the end), cache either ample or 1 MB with trajectories reporting a small or a 600 kB size (thorough: also larger than the cache), file-backed and in-memory; plus every sequence of ' + str(3 if tier == 'quick' else 4) + ' operations starting from a file-backed store that already holds three trajectories, reopened for reading or for appending')
+                      histories=f'every sequence of {L} operations from {c07.OPS} after create, read index chosen among 0..len (one beyond the end), cache either ample or 1 MB with trajectories reporting a small or a 600 kB size (thorough: also larger than the cache), file-backed and in-memory; plus every sequence of 3 operations starting from a file-backed store that already holds three trajectories, reopened for reading or for appending')
     rep.assumptions = ['netCDF4 is replaced by a model (vf/models/fakenc.py) that passes the repository\'s own storage tests; counterexamples are replayed on the real library',
                        'kernel: a variable read at a negative position is normalised against the file\'s current length (measured netCDF4 behaviour)',
                        'histories are an exhaustive enumeration of a finite space (operation codes are solver variables enumerated by the explorer), not a symbolic proof']
@@ -32,11 +32,13 @@ def main():
     prefixes = list(itertools.product(c07.OPS, repeat=2 if tier == 'quick' else 3))
     jobs = [dict(kind='kernel')] + [dict(kind='hist', L=L, first_ops=list(pre), huge=(tier != 'quick'), deadline_s=800 if tier == 'quick' else 3000) for pre in prefixes]
     # histories that begin in a store already holding three trajectories, reopened for reading / appending
-    # (quick: 3 further operations, thorough: 4), partitioned by their first operation
-    L2 = 3 if tier == 'quick' else 4
+    # (3 further operations; thorough: also trajectories larger than the cache), partitioned by their first operation
+    L2 = 3          # (4 operations from these states did not finish within an hour on 16 cores)
     for st in ('read3', 'append3'):
-        jobs += [dict(kind='hist', L=L2, first_ops=[a], start=st, huge=False, deadline_s=800 if tier == 'quick' else 3000) for a in c07.OPS]
-    jobs.sort(key=lambda j: -sum(1 for o in j.get('first_ops', []) if o == 'add'))        # the largest sub-trees first
+        pre2 = [[a] for a in c07.OPS]
+        jobs += [dict(kind='hist', L=L2, first_ops=pre, start=st, huge=(tier != 'quick'), deadline_s=800 if tier == 'quick' else 3000) for pre in pre2]
+    # the largest sub-trees first: histories on a pre-populated store, then by the number of additions in the prefix
+    jobs.sort(key=lambda j: (0 if j.get('start') else 1, -sum(1 for o in j.get('first_ops', []) if o == 'add')))
     results = common.pmap(_job, jobs)
     cands = []
     for (status, out), job in zip(results, jobs):
